@@ -804,6 +804,18 @@ theorem expand_refines_spec_with_paste_decided (defs : List Macro) (toks out : L
   expand_refines_spec_with_paste defs toks out hwf hnc
     (tameRunP_sound fuel _ _ _ (by simpa [entryNames, allEnabled, List.map_map, Function.comp_def] using hnd) h)
 
+
+/-- **tame_class_is_part_of_class_with_paste.** Every `Tame` derivation over a table whose replacement lists contain
+no `##` is a `TameP` derivation: `expand_refines_spec` is the `##`-free special case of
+`expand_refines_spec_with_paste`. -/
+theorem tame_class_is_part_of_class_with_paste (defs : List Macro) (toks out : List PTok)
+    (hb : ∀ m ∈ defs, NoConcat m.body) (h : Tame (allEnabled defs) toks out) : TameP (allEnabled defs) toks out :=
+  tame_to_tameP h (by
+    intro e he
+    simp only [allEnabled, List.mem_map] at he
+    obtain ⟨m, hm, rfl⟩ := he
+    exact hb m hm)
+
 section ExamplesP
 private def LP (ks : List Tok) : List PTok := ks.map (⟨·, true⟩)
 
